@@ -4,7 +4,9 @@ VALUES = [0, 1, 5, -3, True, False, 2.5, 5.0, 5.0005, 5.002, 4.9995, float('nan'
           # equal only within the tolerance AND built in a different key order; same keys with swapped values
           {'a': 1.0, 'b': 2.0}, {'b': 2.0004, 'a': 1.0004}, {'b': 1.0, 'a': 2.0}, [{'a': 1.0, 'b': 2.0}], [{'b': 2.0004, 'a': 1.0004}],
           # the same number of keys but other keys; a key that is missing on one side and holds None on the other
-          {'a': None}, {'b': None}, {'b': 1, 'c': 5}, {'a': None, 'b': 1}, [{'a': None}], ({'b': None},)]
+          {'a': None}, {'b': None}, {'b': 1, 'c': 5}, {'a': None, 'b': 1}, [{'a': None}], ({'b': None},),
+          # floats inside sets: the caller's tolerance applies there as well
+          {1.0}, {1.3}, {1.0004}, {1.0, 5.0}, {5.0004, 1.0004}, frozenset({1.0}), frozenset({1.3}), [{1.0}], [{1.3}], {'s': {1.0}}, {'s': {1.3}}]
 ERRORS = ['ValueError("boom")', 'ZeroDivisionError("z")']
 
 
